@@ -1,10 +1,10 @@
 /-
-  C08 — header maps: accepted only if well-formed, and every field means what the wire said.
-  Proved here: the "accepted ⇒ well-formed ∧ fields = wire" direction, in full (every field, any nesting position, the
-  loop of the code against a lookup-based declarative reading).  The converse ("well-formed ⇒ accepted") is covered by the
-  rule-directed correspondence stream and listed as not yet a theorem in MANIFEST.level_note.
+  C08 — header maps: accepted iff well-formed, and every field means what the wire said.
+  `accepted_is_wellformed`: accepted ⇒ well-formed ∧ fields = wire (every field, any nesting position, the loop of the code against a
+  lookup-based declarative reading).  `wellformed_is_accepted` / `accepted_iff`: the converse, for any wire order of the entries.
 -/
 import CosetProofs.HeaderFields
+import CosetProofs.HeaderConverse
 import CosetProofs.Props.C12
 namespace Coset.Props.C08
 open Coset Coset.Spec
@@ -109,6 +109,74 @@ theorem depends_only_on_value (b1 b2 : Bytes) (v : Value) (h1 : readToValue b1 =
 example : (fromSlice hdrFromValue [0xa2, 0x01, 0x26, 0x04, 0x42, 0x31, 0x31]).isOk = true := by decide +kernel
 example : (hdrFromValue (.map [(.int 1, .int (-7)), (.int 2, .array [.int 1]), (.int 3, .text [0x61, 0x2f, 0x62]), (.int 4, .bytes [1]),
     (.int 5, .bytes [2]), (.int 7, .array [.bytes [], .map [], .bytes [9]]), (.int 99, .null), (.text [0x7a], .int 1)])).isOk = true := by decide +kernel
+theorem lookupL_of_mem (l : Label) (v : Value) : ∀ (ps : List (Label × Value)), (ps.map (·.1)).Nodup → (l, v) ∈ ps → lookupL l ps = some v := by
+  intro ps
+  induction ps with
+  | nil => intro _ h; cases h
+  | cons p ps ih =>
+    intro hnd hm
+    obtain ⟨l', v'⟩ := p
+    simp only [List.map_cons, List.nodup_cons] at hnd
+    rw [lookupL_cons]
+    rcases List.mem_cons.mp hm with h | h
+    · cases h; simp
+    · have : l' ≠ l := by
+        intro e; subst e
+        exact hnd.1 (List.mem_map.mpr ⟨(l', v), h, rfl⟩)
+      simp [this, ih hnd.2 h]
+
+/-- C08 (⇐): a map whose keys denote pairwise distinct labels, each standard parameter present having its RFC 8152 §3.1 shape
+    (`EntryOk`), IV and Partial IV not both present, is accepted — whatever the order of the entries. -/
+theorem wellformed_is_accepted (fuel d : Nat) (m : List (Value × Value)) (ls : List Label)
+    (hk : keyLabels m = .ok ls) (hnd : ls.Nodup)
+    (hall : ∀ p ∈ ls.zip (m.map (·.2)), EntryOk d (CoseSignature.fromValue fuel (d - 1)) p.1 p.2)
+    (hiv : ¬ (Label.int 5 ∈ ls ∧ Label.int 6 ∈ ls)) :
+    ∃ h, Header.fromValue (fuel + 1) d (.map m) = .ok h := by
+  simp only [Header.fromValue, tryAsMap]
+  exact wellformed_loop_accepts d _ m ls hk hnd hall hiv
+
+/-- C08 as an equivalence. -/
+theorem accepted_iff (fuel d : Nat) (v : Value) :
+    (∃ h, Header.fromValue (fuel + 1) d v = .ok h) ↔
+      ∃ m ls, v = .map m ∧ keyLabels m = .ok ls ∧ ls.Nodup ∧
+        (∀ p ∈ ls.zip (m.map (·.2)), EntryOk d (CoseSignature.fromValue fuel (d - 1)) p.1 p.2) ∧ ¬ (Label.int 5 ∈ ls ∧ Label.int 6 ∈ ls) := by
+  constructor
+  · rintro ⟨h, hok⟩
+    obtain ⟨m, ls, rfl, hk, hnd, ho, hnb⟩ := accepted_is_wellformed fuel d v h hok
+    have hlen : ls.length = (m.map (·.2)).length := by
+      have : ∀ (xs : List Value) (ys : List Label), mapRes Label.fromValue xs = .ok ys → ys.length = xs.length := by
+        intro xs; induction xs with
+        | nil => intro ys h; simp [mapRes] at h; subst h; rfl
+        | cons x xs ih => intro ys h; rw [mapRes_cons_ok] at h; obtain ⟨y, ys', _, h2, rfl⟩ := h; simp [ih ys' h2]
+      simpa [keyLabels] using this _ _ hk
+    have hfst : (ls.zip (m.map (·.2))).map (·.1) = ls := by rw [List.map_fst_zip]; omega
+    have hnd' : ((ls.zip (m.map (·.2))).map (·.1)).Nodup := by rw [hfst]; exact hnd
+    refine ⟨m, ls, rfl, hk, hnd, ?_, ?_⟩
+    · intro p hp
+      obtain ⟨l, w⟩ := p
+      have hl := lookupL_of_mem l w _ hnd' hp
+      refine ⟨?_, ?_, ?_, ?_, ?_⟩
+      · intro e; subst e; have := ho.alg; rw [hl] at this; obtain ⟨a, h1, _⟩ := this; exact ⟨a, h1⟩
+      · intro e; subst e; have := ho.crit; rw [hl] at this; obtain ⟨a, ls', h1, h2, h3, _⟩ := this; exact ⟨a, ls', h1, h2, h3⟩
+      · intro e; subst e; have := ho.contentType; rw [hl] at this; obtain ⟨c, h1, h2, _⟩ := this; exact ⟨c, h1, h2⟩
+      · rintro (e | e | e) <;> subst e
+        · have := ho.keyId; rw [hl] at this; obtain ⟨b, h1, h2, _⟩ := this; exact ⟨b, h1, h2⟩
+        · have := ho.iv; rw [hl] at this; obtain ⟨b, h1, h2, _⟩ := this; exact ⟨b, h1, h2⟩
+        · have := ho.partialIv; rw [hl] at this; obtain ⟨b, h1, h2, _⟩ := this; exact ⟨b, h1, h2⟩
+      · intro e; subst e; have := ho.counterSignatures; rw [hl] at this; obtain ⟨ss, h1, _⟩ := this; exact ⟨ss, h1⟩
+    · rintro ⟨h5, h6⟩
+      rw [← hfst] at h5 h6
+      obtain ⟨⟨l5, w5⟩, m5, e5⟩ := List.mem_map.mp h5
+      obtain ⟨⟨l6, w6⟩, m6, e6⟩ := List.mem_map.mp h6
+      simp only at e5 e6; subst e5; subst e6
+      have a5 := ho.iv; rw [lookupL_of_mem _ w5 _ hnd' m5] at a5
+      have a6 := ho.partialIv; rw [lookupL_of_mem _ w6 _ hnd' m6] at a6
+      obtain ⟨b5, _, n5, q5⟩ := a5
+      obtain ⟨b6, _, n6, q6⟩ := a6
+      exact hnb ⟨by rw [q5]; exact n5, by rw [q6]; exact n6⟩
+  · rintro ⟨m, ls, rfl, hk, hnd, hall, hiv⟩
+    exact wellformed_is_accepted fuel d m ls hk hnd hall hiv
+
 example : (hdrFromValue (.map [(.int 5, .bytes [1]), (.int 6, .bytes [2])])).errKind? = some .unexpectedItem := by decide +kernel
 example : (hdrFromValue (.map [(.int 2, .array [])])).errKind? = some .unexpectedItem := by decide +kernel
 example : (hdrFromValue (.map [(.int 3, .text [0x20, 0x61, 0x2f, 0x62])])).errKind? = some .unexpectedItem := by decide +kernel
@@ -116,6 +184,8 @@ example : (hdrFromValue (.map [(.int 3, .text [0x20, 0x61, 0x2f, 0x62])])).errKi
 #print axioms step_not_both
 #print axioms fold_not_both
 #print axioms accepted_is_wellformed
+#print axioms wellformed_is_accepted
+#print axioms accepted_iff
 #print axioms not_a_map_rejected
 #print axioms counter_signature_shape
 #print axioms depends_only_on_value
